@@ -72,7 +72,7 @@ def ops(values=(1, 2)):
         out.append(["setkw", e, {"b": 1}])
         out.append(["update", e, {"a": 2, "b": 2}])
     # an attribute that is itself called 'sid' (e.g. a record read from another Sid and written back)
-    out.append(["setkw", "F1", {"sid": "hamlet/other"}])
+    out.append(["set", "F1", {"sid": "hamlet/other"}])
     out.append(["update", "V1", {"sid": "x", "a": 5}])
     return out
 
@@ -296,7 +296,7 @@ def plan(tier, seed):
     firsts = [op for op in ops() if op[0] == "create" and op[1] not in ("NP", "U")]
     shards = [{"mode": "bfs", "first": op} for op in firsts]
     shards.append({"mode": "bfs", "first": None})
-    n_seq = 8 if tier == "thorough" else 3
+    n_seq = 10 if tier == "thorough" else 6
     shards += [{"mode": "stateless", "index": i, "count": n_seq} for i in range(n_seq)]
     return {"shards": shards}
 
@@ -338,7 +338,7 @@ def run_shard(sh):
         # stateless: sequences executed in one continuous process state, no cache reset, no tree restore inside
         L = 3 if thorough else 2
         seqs = itertools.chain.from_iterable(itertools.product(OPS, repeat=l) for l in range(1, L + 1))
-        small = [op for op in OPS if op[1] in ("F1", "F2", "V1", "NP")]
+        small = [op for op in OPS if op[1] in ("F1", "F2", "V1") and not (op[0] == "set" and op[2] == {"a": 1})][:14]
         if not thorough:
             seqs = itertools.chain(seqs, itertools.product(small, repeat=3))
         n = 0
